@@ -191,6 +191,12 @@ def update_packed_value(v: Any, obj: "GuppyObject", builder: DfBase[P]) -> bool:
             wires = unpack_array(builder, obj._use_wire(None))
             for i, (v, wire) in enumerate(zip(vs, wires, strict=True)):
                 elem_obj = GuppyObject(elem_ty, wire)
+                # A copyable element may have been read into other variables before
+                # the call. Those copies keep their value, so the slot gets a new
+                # object instead of rebinding the shared one.
+                if isinstance(v, GuppyObject) and v._ty.copyable:
+                    vs[i] = elem_obj
+                    continue
                 success = update_packed_value(v, elem_obj, builder)
                 if not success:
                     vs[i] = elem_obj
